@@ -241,6 +241,13 @@ def check_matrix(led, method, kernel_names, extra_kwargs=None, with_conn=False, 
                         d = pycheck.diff_kernel(t, kn, model, cmpargs, want)
                         d = [x for x in d if not x.startswith('unexpected argument')]
                         probs += ['panel %d: %s' % (k + 1, x) for x in d]
+                        if method == 'calc_kT' and kn in ('fkL_num', 'fkG_num') and t.f['fn'] == kn:
+                            # the tangent: both parts are evaluated AT the caller's state with the non-linear terms on
+                            a_ = t.f['args']
+                            if panelctx.vkey(a_.get('NLgeom')) != panelctx.vkey(1):
+                                probs.append('panel %d: %s called with NLgeom=%s, expected 1' % (k + 1, kn, pycheck.describe(a_.get('NLgeom'))))
+                            if state and getattr(a_.get('cs'), 'name', None) != 'c':
+                                probs.append('panel %d: %s does not receive the caller state' % (k + 1, kn))
                 report(led, name, func, probs)
             led.solver_time('z3-feasibility', it.solver_time)
 
